@@ -24,8 +24,11 @@ def gen_op(rng):
     count = max(1, min(255, total // size))
     addr = rng.choice([0, 1, 0x92000003, 0xFFFFFFFF, rng.getrandbits(32)])
     if rng.random() < 0.5:
-        return {'op': 'read', 'address': addr, 'count': count, 'size': size, 'signed': rng.random() < 0.4, 'raw': rng.random() < 0.4,
-                'direct': rng.choice([0, 1]), 'fill': rng.randrange(1 << 16)}
+        op = {'op': 'read', 'address': addr, 'count': count, 'size': size, 'signed': rng.random() < 0.4, 'raw': rng.random() < 0.4,
+              'direct': rng.choice([0, 1]), 'fill': rng.randrange(1 << 16)}
+        if rng.random() < 0.25:
+            op['pattern'] = 'limits'        # the served bytes encode the limits of the signed/unsigned range at this object size
+        return op
     vals = []
     for _ in range(count):
         vals.append(rng.choice([0, 1, (1 << (8 * size)) - 1, 1 << (8 * size - 1), rng.getrandbits(8 * size)]))
@@ -39,10 +42,30 @@ def generate(rng, tier, i):
            'c_max_cmdt': rng.choice([1, 1, 3, 255]), 's_max_cmdt': rng.choice([1, 1, 3, 255]),
            'c_addr': rng.choice([0xF9, 0xF9, 0x00, 253, rng.choice([a for a in range(254) if a != S_ADDR])]),
            'ops': [gen_op(rng) for _ in range(rng.choice([1, 1, 2, 3, 4]))], 'inline_respond': rng.random() < 0.25}
+    ops = scn['ops']
+    for k in range(1, len(ops)):
+        # the same object read again (the serving application keeps one list per object when serve_by_ref is set)
+        if rng.random() < 0.3:
+            prev = [o for o in ops[:k] if o['op'] == 'read']
+            if prev:
+                ops[k] = dict(copy.deepcopy(rng.choice(prev)), raw=rng.random() < 0.5)
+    scn['serve_by_ref'] = rng.random() < 0.5
+    for o in ops:
+        # pause of the client application between transactions: none at all (next call straight after the previous returned) .. long
+        o['gap_s'] = rng.choice([0, 0, 0.0002, 0.4])
     return scn
 
 
+LIMITS = [lambda b: (1 << (b - 1)) - 1, lambda b: -1, lambda b: 0, lambda b: 1, lambda b: -(1 << (b - 1)) + 1, lambda b: -(1 << (b - 1))]
+
+
 def served(op):
+    if op.get('pattern') == 'limits':
+        bits = 8 * op['size']
+        out = b''
+        for k in range(op['count']):
+            out += (LIMITS[(k + op['fill']) % len(LIMITS)](bits) & ((1 << bits) - 1)).to_bytes(op['size'], 'little')
+        return out
     return bytes(payload(op['fill'], op['count'] * op['size']))
 
 
@@ -64,7 +87,7 @@ def execute(scn, keep_log=False, hook=None):
     ops = scn['ops']
     for op in ops:
         if op['op'] == 'read':
-            net.plans.append({'action': 'respond', 'proceed': True, 'data': list(served(op))})
+            net.plans.append({'action': 'respond', 'proceed': True, 'data': list(served(op)), 'obj': (op['address'], op['count'], op['size'], op['fill'], op.get('pattern'))})
         else:
             net.plans.append({'action': 'respond', 'proceed': True, 'data': []})
     stats['back_to_back'] = int(len(ops) > 1)
@@ -78,9 +101,25 @@ def execute(scn, keep_log=False, hook=None):
     for th in (net.client_thread, net.server_thread):
         if th.exc is not None:
             viol.append({'clause': 'app-thread-exception', 'rank': 1, 'msg': '%s: %r' % (th.name, th.exc)})
+    s_rx = net.w.stacks['S'].port.rx_log
+
+    def races(k):
+        """Asynchronous clean-up windows of the previous transaction that were still open when operation k ran (see known findings)."""
+        if k == 0 or k >= len(net.client_results):
+            return 'none'
+        rec = net.client_results[k]
+        out = []
+        req = [n for n, (t, fr) in enumerate(s_rx) if rec['t0'] <= t <= rec['t1'] and fr.src == 'C' and rc.Id(fr.can_id).pf == 0xD9]
+        back = [net.respond_rx_marks[n] for n, (t, i, r) in enumerate(net.respond_results) if i == k - 1]
+        if req and (not back or back[0] > req[0]):
+            out.append('request-while-app-in-respond')      # the facade is not subscribed until respond() has returned
+        if any(rec['t0'] <= t <= rec['t1'] and pf == 0xD7 and n > 8 and r is False for (t, who, pf, n, r) in net.sends):
+            out.append('dm16-refused-pair-busy')             # transport session of the previous DM16 not yet removed by the job thread
+        return '+'.join(out) or 'none'
+
     for k, op in enumerate(ops):
         nbytes = op['count'] * op['size'] if op['op'] == 'read' else len(op['values']) * op['size']
-        shape = {'op': op['op'], 'bytes': 'le7' if nbytes <= 7 else ('8' if nbytes == 8 else 'gt8'), 'after': ops[k - 1]['op'] + ('-multi' if (ops[k - 1].get('count', len(ops[k - 1].get('values', []))) * ops[k - 1]['size']) > 7 else '-single') if k else 'start'}
+        shape = {'race': races(k), 'op': op['op'], 'bytes': 'le7' if nbytes <= 7 else ('8' if nbytes == 8 else 'gt8'), 'after': ops[k - 1]['op'] + ('-multi' if (ops[k - 1].get('count', len(ops[k - 1].get('values', []))) * ops[k - 1]['size']) > 7 else '-single') if k else 'start'}
         if k >= len(net.client_results):
             viol.append({'clause': 'client-call-never-returned', 'rank': 2, 'feat': shape, 'msg': 'operation %d (%s, %d bytes) did not return' % (k, op['op'], nbytes)})
             break
@@ -152,6 +191,11 @@ def shrink(scn):
         c = copy.deepcopy(scn)
         c['server_key'] = c['client_key'] = None
         yield c
+    for flag in ('serve_by_ref', 'inline_respond'):
+        if scn.get(flag):
+            c = copy.deepcopy(scn)
+            c[flag] = False
+            yield c
     for k in ('c_max_cmdt', 's_max_cmdt'):
         if scn.get(k, 1) != 255:
             c = copy.deepcopy(scn)
@@ -174,6 +218,14 @@ def shrink(scn):
                     c = copy.deepcopy(scn)
                     c['ops'][i]['values'] = op['values'][:cnt]
                     yield c
+        if op.get('gap_s', 0.4) != 0.4:
+            c = copy.deepcopy(scn)
+            c['ops'][i]['gap_s'] = 0.4
+            yield c
+        if op.get('pattern'):
+            c = copy.deepcopy(scn)
+            del c['ops'][i]['pattern']
+            yield c
         if op['size'] != 1:
             c = copy.deepcopy(scn)
             c['ops'][i]['size'] = 1
